@@ -11,6 +11,7 @@ TRUSTED_BASE = ["Spec/Rotation.lean: arg-min over all rotations (quadratic) judg
                 "bytes are ASCII letters (Go compares bytes, the model compares code points)"]
 ASSUMPTIONS = ["inputs are ASCII"]
 PARTIAL = []
+PROOF_MODULES = ["PolyVerif.Props.C12", "PolyVerif.Props.C12Booth"]
 TIMEOUT_MS = 60000
 
 def fib(n):
@@ -53,12 +54,14 @@ def cases(seed, tier):
             yield ["rotate", w]
 
 TECHNIQUE = "Lean 4 proof about the arg-min spec and about a statement-by-statement model of the Booth loop; differential correspondence (exhaustive on small alphabets)"
-LEVEL_TEXT = ("Proved in Lean for strings of every length: the arg-min specification returns a rotation of its input, no greater than "
-              "any rotation, and is constant on rotation classes (so any function with the first two properties canonicalises); "
-              "the model of the Booth loop never indexes out of range and never exhausts its inner-loop fuel. The model is tied to "
+LEVEL_TEXT = ("Proved in Lean for strings of every length (Props/C12): the arg-min specification returns a rotation of its input, no "
+              "greater than any rotation, and is constant on rotation classes. Proved in Lean for strings of every length (Props/C12Booth, "
+              "KMP border-chain + Duval-style loop invariants): the statement-by-statement model of boothLeastRotation / RotateSequence never "
+              "indexes out of range, never exhausts its inner-loop fuel, returns the FIRST index of a least rotation, and "
+              "rotateSequence s = some (leastRotation s); hence the result is a rotation (same length, a permutation, same cyclic order), "
+              "no greater than any rotation, and rotateSequence (rotl k s) = rotateSequence s. The model is tied to "
               "seqhash.RotateSequence by correspondence (exhaustive over {a,b}^<=20, {a,b,c}^<=13, ACGT^<=11 in the thorough tier, "
-              "periodic/near-periodic/Fibonacci words to 10^6) and every real output is judged against the arg-min spec. See the "
-              "evidence field 'partial' for clauses that rest on correspondence only.")
+              "periodic/near-periodic/Fibonacci words to 10^6) and every real output is also judged against the arg-min spec.")
 LEVEL_NOTE = "Trusted: Lean kernel; harness + polymodel; ASCII bytes; for inputs > 1500 letters the judge is the two-pointer algorithm (tested against the spec, not proved)."
 
 HARNESS_BIN = "run-seq"
